@@ -38,6 +38,10 @@
               unslept = await aiotime.sleep(consistency_time - loop.time(), wakeup=stream_pressure)
               consistency_is_achieved = unslept is None
       consistency_is_achieved = consistency_is_achieved and patch_initially_empty
+      if required and consistency_time is not None \
+              and operator_paused is not None and operator_paused.is_on():       -- fix 3cc60e3
+          consistency_is_achieved = False       -- paused: the streams are closed, the awaited version cannot
+                                                -- arrive, the timeout proves nothing; the event is dropped
       if required and not achieved: return                       -- early: to PATCHing / the next event
       process_changing_cause(...)                                -- change-detecting handlers
   then `application.apply` patches; the version of the last PATCH is returned to the worker
@@ -93,6 +97,10 @@ structure Iter where
                           -- a reconnect, a "410 Gone" — not from the watch stream. The worker does NOT look at
                           -- it: a listing made while a handler ran is queued before that handler's PATCH and
                           -- dequeued after it, so a listed view can be older than the own last write.
+  paused : Bool := false  -- `operator_paused.is_on()` at the instant the consistency block is left (after the
+                          -- barrier sleep, if one was taken; there is no suspension point between the sleep's
+                          -- return and the read). The toggle may have flipped any number of times before: before
+                          -- the dequeue, during the raw-event handlers, during the sleep. Only this value is read.
   deriving DecidableEq, Repr
 
 structure Slept where
@@ -151,7 +159,10 @@ def stepStage (deadline : Option Int) (it : Iter) (ps : PS) : Stage → PS
         then some (sleepUntil d ps.clock it.pressure it.wake it.lag) else none
       | none => none
     let ach1 : Bool := past || (match slept with | some s => s.timedOut | none => pre)
-    { ps with slept := slept, decided := some (ach1 && it.patchInit),
+    -- `if required and consistency_time is not None and operator_paused.is_on(): achieved = False` (fix 3cc60e3);
+    -- `is not None`, not truthiness: a `consistency_time` of 0.0 counts; GONE or not; slept or not
+    let frozen : Bool := it.required && deadline.isSome && it.paused
+    { ps with slept := slept, decided := some (ach1 && it.patchInit && !frozen),
               clock := match slept with | some s => s.tEnd | none => ps.clock }
   | .changing =>
     -- `if consistency_is_required and not consistency_is_achieved: return` precedes it
